@@ -30,7 +30,7 @@ SimNextWriter(s) == LET hh == H(s) IN ANextWriter(Late(Sel(StreamTypes, hh, 3), 
 SimWrite(s) ==
   LET hh == H(s + 20)  n == Sel(WSz, hh, 1)
   IN AWrite(n, IF h = "open" /\ cmp /\ n > 0 THEN Jh(hh, 17) ELSE 0,
-            IF h = "open" /\ ~cmp THEN Sel(<<"w", "w", "s", "r", "w", "r">>, hh, 41) ELSE "w")
+            IF h = "open" THEN Sel(<<"w", "re", "s", "r", "w", "rce", "rc", "re", "w", "r", "rce">>, hh, 41) ELSE "w")
 SimClose(s) == AClose(IF h = "open" /\ cmp THEN Jh(H(s + 40), 5) ELSE 0)
 SimWriteMessage(s) ==
   LET hh == H(s + 60)  t == Late(Sel(MsgTypes, hh, 7), hh)  z == Z(hh, 19)
